@@ -196,6 +196,7 @@ func propC18(r *kernel.Run) {
 		ingressed  bool // IngressConn returned
 		viaLn      bool // accepted by the library's IngressListener loop (completion not observable)
 		returnedBy []string
+		ierr       error // the error this connection was ingressed with ("sends a connection and associated error as-is")
 	}
 	conns := map[*muxConn]*connInfo{}
 	var order []*muxConn
@@ -235,9 +236,16 @@ func propC18(r *kernel.Run) {
 	for i := 0; i < k; i++ {
 		c := newConn()
 		name := fmt.Sprintf("ingress%d", i)
+		var ierr error
+		if tp.Draw(5) == 0 {
+			// the caller passes an error along with the connection: both travel through the listener as they are
+			ierr = fmt.Errorf("error ingressed with connection %d", c.id)
+			conns[c].ierr = ierr
+			r.Count("cfg.ingress_with_error", 1)
+		}
 		r.Sched.Go(name, "ingress", func() {
 			guard(name, func() {
-				l.IngressConn(c, nil)
+				l.IngressConn(c, ierr)
 				conns[c].ingressed = true
 			})
 		})
@@ -362,7 +370,16 @@ func propC18(r *kernel.Run) {
 
 	// end-of-run oracles
 	for _, a := range accepts {
+		// a connection that was ingressed together with an error is handed out together with exactly that error
+		pairOK := false
+		if mc, ok := a.conn.(*muxConn); ok && a.err != nil && conns[mc].ierr == a.err {
+			pairOK = true
+		}
+		if mc, ok := a.conn.(*muxConn); ok && a.err == nil && conns[mc].ierr != nil {
+			r.Violate("accept-result", "accept-dropped-ingressed-error", "%s returned connection %d without the error it was ingressed with (%s)", a.name, mc.id, shape)
+		}
 		switch {
+		case pairOK:
 		case a.err == nil && a.conn == nil:
 			r.Violate("accept-result", "accept-nil-nil", "%s returned (nil,nil) (%s)", a.name, shape)
 		case a.err != nil && a.err != net.ErrClosed:
